@@ -10,13 +10,17 @@
    positive; the decrement that reaches zero despawns the entity and thereby drops the payload; a system-event command's
    cleanup despawns its data entity; an aborted (skipped) command still runs setup and cleanup; setup never fails and the
    trackers are empty when the tree ends (C11/C18).
-   NOT proved: the global count — that every queued reaction command reaches its cleanup exactly once, hence that the
-   counter reaches zero exactly after the last scheduled reader — and "dropped exactly once" over the whole log.  Those
+   Proved for whole executions (PrepSpec, TopLevel): every reaction command a broadcast / entity event queues — exactly
+   as many as the counter starts with — is parked, in order, under a fresh ticket with the data entity as its parked
+   item, before the trigger command returns; every parked command is set up exactly once over the run (by its run or by
+   the abort path, each followed by its cleanup).
+   NOT proved: the global count as one equation — counter = parked-but-not-yet-cleaned-up readers at every point, hence
+   zero exactly after the last scheduled reader — and "dropped exactly once" over the whole log.  Those
    rest on the correspondence (every drop is a compared log line, data=0 in every compared snapshot) and the m_payloads
    monitor.  Statements only; proofs in proofs/PayloadSpec.v. *)
 From Cobweb Require Import Machine.
 Require Import Coq.Sorting.Permutation.
-From CobwebProofs Require Import RunnerInv OnceInv TicketInv PayloadSpec TopLevel.
+From CobwebProofs Require Import RunnerInv OnceInv TicketInv PayloadSpec PrepSpec TopLevel.
 
 Theorem unheard_broadcast_dropped_at_once_partial : forall (P : program) w ty p, tbl_get ty (bc_tbl w) = [] ->
   snd (apply_prim P (CBroadcast ty p) w) = [] /\ dataents (fst (apply_prim P (CBroadcast ty p) w)) = dataents w
@@ -93,6 +97,24 @@ Theorem every_scheduled_reader_is_set_up_exactly_once : forall (P : program) (fu
   Permutation (ptickets (g_prep w')) (ctickets (g_claim w')) /\ NoDup (ctickets (g_claim w')).
 Proof. exact every_parked_command_is_set_up_exactly_once. Qed.
 
+(* the counted readers are all parked: one block per reaction command the trigger queued, headed by that command's own
+   entry (target system, the data entity as parked item) *)
+Theorem every_counted_reader_of_a_broadcast_is_parked : forall (P : program) f ty p w w' h hs, psorted w -> tbl_get ty (bc_tbl w) = h :: hs ->
+  exec P f (IApply (CBroadcast ty p)) w = Ok w' ->
+  exists bs, g_prep w' = g_prep w ++ concat bs /\
+    Forall2 own_head (map (fun h0 => CReact (RcBroadcast (next_ent w) (handle_sys h0))) (h :: hs)) bs /\ psorted w'.
+Proof. exact broadcast_readers_all_parked. Qed.
+Theorem every_counted_reader_of_an_entity_event_is_parked : forall (P : program) f ty e p w w' t ts, psorted w ->
+  entity_targets e (REvent ty) w ++ map handle_sys (tbl_get ty (any_tbl w)) = t :: ts ->
+  exec P f (IApply (CEntityEvent ty e p)) w = Ok w' ->
+  exists bs, g_prep w' = g_prep w ++ concat bs /\
+    Forall2 own_head (map (fun t0 => CReact (RcEntityEvent e (next_ent w) t0)) (t :: ts)) bs /\ psorted w'.
+Proof. exact entity_event_readers_all_parked. Qed.
+Example ex_sorted : psorted (install_static ex_prog init_world).
+Proof. exact (psorted_init ex_prog). Qed.
+Example ex_parked : exists w', run ex_prog 300 = Ok w' /\ map snd (g_prep w') = [[PiEv 1000000]; [PiEv 1000000]].
+Proof. eexists. split; [vm_compute; reflexivity|]. vm_compute. reflexivity. Qed.
+
 Print Assumptions every_scheduled_reader_is_set_up_exactly_once.
 Print Assumptions unheard_broadcast_dropped_at_once_partial.
 Print Assumptions unheard_entity_event_dropped_at_once_partial.
@@ -105,3 +127,5 @@ Print Assumptions system_event_data_released_by_cleanup_partial.
 Print Assumptions one_decrement_per_cleanup_partial.
 Print Assumptions skipped_reader_still_cleans_up_partial.
 Print Assumptions no_reader_is_lost_partial.
+Print Assumptions every_counted_reader_of_a_broadcast_is_parked.
+Print Assumptions every_counted_reader_of_an_entity_event_is_parked.
